@@ -120,6 +120,10 @@ def run(F, R):
     # S8: both console queues run in the negotiated modes (C08.H3)
     from .C08 import queue_modes_rule
     queue_modes_rule(F, R, M, 'S8', [DRV])
+    # S9: chunks keep being delivered after the 16-bit ring indices of a console queue wrap (65536 receives or sends):
+    # wrap-safe counters and the folded completion test (C03.E5 / E9)
+    from .C03 import wrap_rule
+    wrap_rule(F, R, 'S9')
 
 
 def norm_slice(t):
